@@ -473,8 +473,14 @@ class MinErrorFlow():
                 else float(edge_sol_dict[edge])
             )
 
-        edge_error_sol_dict = self.solver.get_values(self.edge_error_vars)
-        error = sum(edge_error_sol_dict.values())
+        # The error is recomputed from the corrected values: the error variables are only upper bounds of the
+        # absolute differences, tight where the objective pushes them down (not in the few-flow-values model,
+        # nor on edges with error scaling 0)
+        error = sum(
+            abs(data[self.flow_attr] - self.edge_sol[(u, v)])
+            for u, v, data in self.G.edges(data=True)
+            if (u, v) not in self.edges_to_ignore
+        )
 
         corrected_graph = deepcopy(self.original_graph_copy)
         for u, v in corrected_graph.edges():
